@@ -24,6 +24,7 @@ def rd(ctx, N, M=16, B=4, K=1, qN=None, tiers=("quick", "thorough"), labels=None
     r["params"]["TAIL"] = 0
     r["params"]["TAILLO"] = 0
     r["params"]["WRAPEOF"] = 0
+    r["params"]["LITCAP"] = 0
     if tN is not None:
         r["thorough"] = {"N": tN}
     elif harness == "VerifRdOracle":
@@ -34,7 +35,7 @@ def rd(ctx, N, M=16, B=4, K=1, qN=None, tiers=("quick", "thorough"), labels=None
     return r
 
 
-RD_CONTEXTS_Q = [(0, 3), (1, 2), (2, 2), (3, 2), (6, 1), (4, 6), (5, 5), (11, 2), (12, 2), (16, 2), (17, 2), (24, 2), (25, 1), (26, 1), (52, 2), (57, 2), (60, 2)]
+RD_CONTEXTS_Q = [(0, 3), (1, 2), (2, 2), (3, 2), (6, 1), (4, 6), (5, 5), (7, 7), (11, 2), (12, 2), (16, 2), (17, 2), (24, 2), (25, 1), (26, 1), (52, 2), (57, 2), (60, 2)]
 
 def rdp(harness, ctx, N, picks, labels, covers=(), M=16, tiers=("quick", "thorough"), extra=None):
     r = rd(ctx, N, M=M, labels=labels, covers=covers, harness=harness, tiers=tiers, extra=extra)
@@ -50,6 +51,7 @@ CHECKS = {
         "level": "model_checking",
         "runs": [rd(c, n, labels=["C02:", "REF:"], covers=["complete"] if c not in (3, 6, 17, 25, 26, 57, 60) else []) for c, n in RD_CONTEXTS_Q] +
                 [rd(6, 2, K=k, labels=["C02:", "REF:"]) for k in (0, 2, 3)] +
+                [rd(27, 3, M=300, labels=["C02:", "REF:"], covers=["complete"], extra={"LITCAP": 2})] +
                 [rd(c, n, labels=["C02:", "REF:"], tiers=["thorough"]) for c, n in RD_CONTEXTS_T],
         "assumptions": ["oracle: reference inflater (harness/common/zz_verif_ref.go.tmpl, strict mode) cross-checked on every path against the real compress/flate executed symbolically on the same bytes (REF:* assertions)",
                         "window harness: stream = concrete context prefix ++ N symbolic bytes ++ suffix; output of the window bounded by M bytes (longer outputs are cut by Assume)"],
@@ -58,6 +60,7 @@ CHECKS = {
         "level": "model_checking",
         "runs": [rd(c, n, labels=["C03:"], covers=["truncated"] if c not in (25, 26, 60) else []) for c, n in RD_CONTEXTS_Q] +
                 [rd(6, 2, K=k, labels=["C03:"]) for k in (0, 2, 3)] +
+                [rd(27, 3, M=300, labels=["C03:"], extra={"LITCAP": 2})] +
                 [rd(c, n, labels=["C03:"], tiers=["thorough"]) for c, n in RD_CONTEXTS_T] +
                 [rdp("VerifRdReset", 0, 2, {"olderr": oe, "wp": wp}, ["C13:"], ["ran"]) for (oe, wp) in [(0, 1), (1, 3)]],
         "assumptions": ["oracle: reference inflater strict + permissive; stdlib compress/flate executed symbolically for error kinds",
@@ -87,7 +90,8 @@ CHECKS = {
     },
     "C13": {
         "level": "model_checking",
-        "runs": [rdp("VerifRdReset", c, n, {"olderr": oe, "wp": wp}, ["C13:"], ["ran"]) for (c, n) in [(0, 2)] for oe in (0, 1) for wp in range(5)],
+        "runs": [rdp("VerifRdReset", c, n, {"olderr": oe, "wp": wp}, ["C13:"], ["ran"]) for (c, n) in [(0, 2)] for oe in (0, 1) for wp in range(5)] +
+                [rdp("VerifRdReset", 12, 1, {"olderr": 0, "wp": wp}, ["C13:"], ["ran"]) for wp in (0, 1)],
         "assumptions": ["inductive step: Reset from an arbitrary state inside the written invariant InvRd (symbolic scalars, symbolic history bytes around the positions, stale tables), not from enumerated histories"],
     },
     "C15": {
@@ -238,7 +242,7 @@ CHECKS["C18"] = {
                     "the window sits inside a block followed by >= 40 concrete bytes so that the assembly fast path is entered; acceleration level is switched by assigning cpu.ArchLevel in the harness (0 vs 3)"],
 }
 
-CHECKS["C14"]["runs"] += [gz("VerifGzWrFail", {"recover": rc, "level": lv}, {"K": 3, "KMAX": 5}, ["C14:"], ["failure-reported", "op-after-failure"]) for (rc, lv) in [(0, 0), (1, 1)]]
+CHECKS["C14"]["runs"] += [gz("VerifGzWrFail", {"recover": rc, "level": lv}, {"K": 3, "KMAX": 9}, ["C14:"], ["failure-reported", "op-after-failure"]) for (rc, lv) in [(0, 0), (1, 1)]]
 CHECKS["C14"]["runs"] += [gz("VerifZlWrFail", {"recover": rc, "level": lv, "dict": d}, {"K": 3, "KMAX": 5}, ["C14:"], ["failure-reported", "op-after-failure"], pkg=ZLIB) for (rc, lv, d) in [(0, 0, 0), (1, 1, 1), (1, 2, 0)]]
 CHECKS["C13"]["runs"] += [gz("VerifZlReset", {"dict": 2, "hist": h}, {"N": 3, "M": 8}, ["C13:"], ["ran"], pkg=ZLIB, validate=False) for h in (0, 1)]
 CHECKS["C15"]["runs"] += [rdp("VerifRdFail", c, n, {"with": w}, ["C15:"], ["faulted"], extra={"WRAPEOF": 1}) for (c, n, w) in [(0, 2, 0), (12, 1, 1)]]
@@ -255,3 +259,8 @@ CHECKS["C16"]["runs"] += [gz("VerifCtorLevels", {}, {}, ["C16:"], ["ran"])]
 CHECKS["C02"]["runs"] += [rd(0, 2, labels=["C02:", "REF:"], extra={"S": 1})]
 
 CHECKS["C16"]["runs"] += [gz("VerifGzSeq", {}, {"K": 4}, ["C16:"], ["close"], thorough={"K": 5})]
+
+CHECKS["C01"]["runs"] += [wr("VerifKEncBytes", {}, {"IDXLO": lo, "IDXHI": hi, "L0": l0, "L1": l1, "LE": le, "DATA": d}, ["C01:"], ["ran", "complete"], tiers=tiers)
+                          for (lo, hi, l0, l1, le, d, tiers) in [(8150, 8180, 15, 9, 7, 6, ["quick", "thorough"]), (8160, 8180, 8, 8, 15, 3, ["quick", "thorough"]), (0, 4, 15, 15, 15, 7, ["quick", "thorough"]),
+                                                                 (8120, 8185, 15, 15, 15, 9, ["thorough"]), (8140, 8185, 11, 13, 2, 12, ["thorough"])]]
+CHECKS["C18"]["runs"] += [dict(rd(5, 3, M=300, labels=["C18:"], covers=["ran"], harness="VerifAsmDiff"), tags="verif", native_configs=[["verif", None]], maxdec=4000, maxconc=1500)]
